@@ -15,6 +15,8 @@ def parseFilter (s : String) (nest : Nat := 0) : Option Filter :=
     match nest with
     | 1 => some (.and [.or tys, .or tys])
     | 2 => some (.or (tys.map (fun t => Filter.and [t])))
+    | 3 => some (.or (tys ++ [.and []]))
+    | 4 => some (.and [.or tys, .or []])
     | _ => some (.or tys)
 
 def showRedef (o : RedefOutcome) : String :=
@@ -51,7 +53,7 @@ def runRedef (fl : Flags) (b : Block) : Res :=
   | _, _, .optErr _ => { conform := some "builder_opterr", propNA := true }
   | none, some target, .ok bld0 =>
   let fin := parseFilter ((kv b.head "fin").getD "none") (natOf ((kv b.head "finnest").getD "0"))
-  let fout := parseFilter ((kv b.head "fout").getD "none")
+  let fout := parseFilter ((kv b.head "fout").getD "none") (natOf ((kv b.head "foutnest").getD "0"))
   -- converter generators run while the Redefine graph is built, after the output filter was checked
   let snap := genVerts (preGenGraph bld0 sc.fn target)
   let rawRuns := (splitRunsWith ["gi", "rdres"] b.lines).map (fun r => r.2)
@@ -165,10 +167,13 @@ def runAlias (b : Block) : Res :=
   let v := ((field b "alias").getD []).headD "skip"
   let sib := ((field b "sibling").getD []).headD "skip"
   let p08 := if v = "modified" ∨ v = "panic" then some s!"calling_the_redefined_function_{v}_the_callers_option_slice" else none
+  -- Convert on a prefix of the caller's option list: what lies behind the prefix in the same array is the caller's
+  let cv := ((field b "cvalias").getD []).headD "skip"
+  let p10 := if cv = "modified" ∨ cv = "panic" then some s!"Convert_{cv}_the_callers_option_slice" else none
   -- Redefine (and Call) on a function must leave every other function as it was: also one whose default options
   -- live in the same array, behind the target's own
   let p09 := if sib = "disturbed" ∨ sib = "panic" then some s!"redefine_or_call_on_the_target_{sib}_a_function_sharing_its_default_option_array" else none
-  { conform := none, prop := p08, props := [("C09", verdictStr p09)],
+  { conform := none, prop := p08, props := [("C09", verdictStr p09), ("C10", verdictStr p10)],
     stats := ["execs=1", "outcome=ok", "size=1"] }
 
 end ArgMapper.Driver
